@@ -302,7 +302,15 @@ void h_parseInput(void) {
   NDT t; vstr s; unsigned v;
   g_strto_calls = 0;
   result_t r = NDT_parseInput(&t, &s, &v);
-  if (r == RESULT_OK) { CANARY("parsed"); if (t.m_divisor != 1) { CANARY("parsed fixed point"); } if (t.m_flags & EXP) { CANARY("parsed float"); } }
+  if (r == RESULT_OK) {
+    CANARY("parsed");
+#if !defined(CASE_PI) || CASE_PI == 1 || CASE_PI == 2
+    if (t.m_divisor != 1 && !(t.m_flags & EXP)) { CANARY("parsed fixed point"); }
+#endif
+#if !defined(CASE_PI) || CASE_PI == 3
+    if (t.m_flags & EXP) { CANARY("parsed float"); }
+#endif
+  }
   if (r == RESULT_ERR_OUT_OF_RANGE) { CANARY("out of range"); }
   if (r == RESULT_ERR_INVALID_NUM) { CANARY("invalid"); }
 }
@@ -328,7 +336,15 @@ void h_parseInput_b2(void) {
   __CPROVER_assert(PI_POST_EXP_SOUND(r), "[C07] parseInput IEEE float: never NaN/infinity or partial text");
   __CPROVER_assert(PI_POST_ONCE, "parseInput: C library consulted at most once");
   __CPROVER_assert(PI_POST_ERRKEEP(r, v0), "parseInput: error leaves the output untouched");
-  if (r == RESULT_OK) { CANARY("parsed"); if (t.m_divisor != 1) { CANARY("parsed fixed point"); } if (t.m_flags & EXP) { CANARY("parsed float"); } }
+  if (r == RESULT_OK) {
+    CANARY("parsed");
+#if !defined(CASE_PI) || CASE_PI == 1 || CASE_PI == 2
+    if (t.m_divisor != 1 && !(t.m_flags & EXP)) { CANARY("parsed fixed point"); }
+#endif
+#if !defined(CASE_PI) || CASE_PI == 3
+    if (t.m_flags & EXP) { CANARY("parsed float"); }
+#endif
+  }
   if (r == RESULT_ERR_OUT_OF_RANGE) { CANARY("out of range"); }
   if (r == RESULT_ERR_INVALID_NUM) { CANARY("invalid"); }
 }
